@@ -54,7 +54,9 @@ type notifier struct {
 	Field     FieldRef
 	Calls     []*ssa.Call // element calls
 	ParamFTI  bool        // the routine converts its parameter float->int before delivering
-	ParamOK   bool        // every element call delivers the parameter (through conversions only)
+	ParamOK   bool        // every element call delivers the same parameter of the routine (through conversions only)
+	ParamIdx  int         // index of that parameter in Fn.Params
+	Inline    bool        // the routine also stores the estimate: the loop is the notification itself, the delivered value is checked by O1
 }
 
 func (p *Prog) notifiersOf(nt *types.Named) []*notifier {
@@ -64,9 +66,6 @@ func (p *Prog) notifiersOf(nt *types.Named) []*notifier {
 		return nil
 	}
 	for _, m := range p.MethodsOf(nt) {
-		if len(m.Params) != 2 {
-			continue
-		}
 		n := &notifier{Fn: m, ParamOK: true}
 		allInstrs(m, func(ins ssa.Instruction) {
 			call, ok := ins.(*ssa.Call)
@@ -95,8 +94,16 @@ func (p *Prog) notifiersOf(nt *types.Named) []*notifier {
 					n.Field = lf
 					n.Calls = append(n.Calls, call)
 					root, fti := convChain(c.Args[0])
-					if root != ssa.Value(m.Params[1]) {
+					idx := -1
+					for i, prm := range m.Params {
+						if i > 0 && root == ssa.Value(prm) {
+							idx = i
+						}
+					}
+					if idx < 0 || (n.ParamIdx != 0 && n.ParamIdx != idx) {
 						n.ParamOK = false
+					} else {
+						n.ParamIdx = idx
 					}
 					if fti {
 						n.ParamFTI = true
@@ -109,6 +116,20 @@ func (p *Prog) notifiersOf(nt *types.Named) []*notifier {
 		}
 	}
 	return out
+}
+
+// inlineNotifier: the loop over the listener collection written inside f itself (no separate routine). The notification
+// "starts" where the path reaches the loop header; the value delivered is the argument of the element call.
+func c16InlineHeader(p *Prog, n *notifier, b *ssa.BasicBlock) *ssa.Call {
+	if n == nil || !isLoopHeader(b) || !c16HeaderOverField(p, b, n.Field) {
+		return nil
+	}
+	for _, c := range n.Calls {
+		if b.Dominates(c.Block()) {
+			return c
+		}
+	}
+	return nil
 }
 
 func runC16(p *Prog, l *Ledger) {
@@ -139,6 +160,13 @@ func runC16(p *Prog, l *Ledger) {
 			continue
 		}
 		notifs := p.notifiersOf(nt)
+		for _, n := range notifs {
+			for _, a := range p.Accesses(n.Fn) {
+				if a.Write && sameField(a.Field, info.Field) && !freshBase(a) {
+					n.Inline = true
+				}
+			}
+		}
 		// O1: stores of the estimate outside constructors
 		nStores := 0
 		for _, f := range p.Funcs {
@@ -156,6 +184,13 @@ func runC16(p *Prog, l *Ledger) {
 			if len(notifs) == 0 {
 				l.Bad("O1", key, p.FuncPos(f), "the estimate is stored but the type has no notification routine over its listener collection")
 				continue
+			}
+			// the storing function may contain the notification loop itself
+			var own *notifier
+			for _, n := range notifs {
+				if n.Fn == f {
+					own = n
+				}
 			}
 			npaths := 0
 			var bad []string
@@ -182,11 +217,18 @@ func runC16(p *Prog, l *Ledger) {
 						evs = append(evs, ev{isW: true, ins: ins, step: step, val: a.Val})
 						return true
 					}
+					if own != nil && ins == ins.Block().Instrs[0] {
+						if ec := c16InlineHeader(p, own, ins.Block()); ec != nil {
+							evs = append(evs, ev{ins: ec, step: step, val: ec.Call.Args[0], n: &notifier{Fn: f, Field: own.Field, ParamOK: true}})
+						}
+					}
 					if call, ok := ins.(*ssa.Call); ok {
 						c := p.CallOf(call)
 						for _, n := range notifs {
-							if c.Static == n.Fn && len(c.Args) == 1 {
-								evs = append(evs, ev{ins: ins, step: step, val: c.Args[0], n: n})
+							if c.Static == n.Fn && n.ParamOK && n.ParamIdx-1 < len(c.Args) {
+								evs = append(evs, ev{ins: ins, step: step, val: c.Args[n.ParamIdx-1], n: n})
+							} else if c.Static == n.Fn && !n.Inline {
+								evs = append(evs, ev{ins: ins, step: step, val: nil, n: n})
 							}
 						}
 					}
@@ -284,7 +326,7 @@ func runC16(p *Prog, l *Ledger) {
 			key := p.Key(n.Fn)
 			npaths := 0
 			var bad []string
-			if !n.ParamOK {
+			if !n.ParamOK && !n.Inline {
 				bad = append(bad, "a listener is called with something other than the routine's parameter")
 			}
 			callSet := map[ssa.Instruction]bool{}
